@@ -1,4 +1,27 @@
 // Driver for C14 (contact queries round-trip through text and cannot be injected into).
+//
+// Streams (every random choice derives from the seed):
+//
+//	text    grammar-driven query texts (implicit conditions, all comparators and aliases in any letter case,
+//	        nesting, juxtaposition, quoted and bare literals, adversarial string content) plus a malformed share,
+//	        each parsed under both redaction policies with the REAL contactql.ParseQuery;
+//	tree    query trees built with NewCondition / NewBoolCombination (valid property keys, adversarial values at
+//	        every position of 1-4 condition queries, not simplified), formatted with the REAL Stringify;
+//	inject  contact-query templates into which values are substituted with the REAL flows.ContactQueryEscaping;
+//	quote   strconv.Quote / strconv.Unquote against coq/lib/Quote.v (quote.go).
+//
+// Correspondence: every text (incl. the formatted trees and the instantiated templates) becomes a case of
+// cases_C14_cql_*.v: the generated lexer's token stream, ParseQuery's outcome (error class or root + String()),
+// and the tables of the external functions; the Coq model (model/CqlParser.v, CqlPrinter.v) is run on the same text.
+//
+// DIRECT ORACLE (no model involved), one check per sentence of the property:
+//
+//	reparse      for every accepted text: ParseQuery(q.String()) succeeds with a structurally identical root
+//	             (and formats to the same text again);
+//	programmatic for every valid programmatic tree t: ParseQuery(Stringify(t)) succeeds with root t.Simplify();
+//	             a validation error (the tree is then not a valid query) is skipped, a syntax error is a failure;
+//	injection    ParseQuery(template[v1..vn escaped]) has exactly the structure of ParseQuery(template[placeholders])
+//	             with the placeholder values replaced by v1..vn.
 package main
 
 import (
@@ -7,8 +30,15 @@ import (
 
 func main() {
 	o := hx.ParseOpts()
-	res := hx.NewResult(o, "TODO")
+	res := hx.NewResult(o, "text: random derivations of the ContactQL grammar (depth <= 4; properties = attributes, URN schemes, "+
+		"fields.*, urns.*, unknown prefixes, keyword-like and non-ASCII keys in random letter case; comparators = all seven + has/is; "+
+		"literals = bare text, numbers, quoted strings over an adversarial alphabet of quotes, backslash runs incl. trailing, escapes, "+
+		"operators, parentheses, keywords, newlines, non-BMP) + 15% token soup, each under both redaction policies; tree: programmatic "+
+		"trees of 1-4 conditions (arity 1-4, depth <= 3) with an adversarial value at every position; inject: 14 templates x adversarial "+
+		"values through ContactQueryEscaping.  Non-trivial = the text contains one of \" \\ ( ) adjacent to another of them, or (tree/inject) "+
+		"a value containing a quote, backslash, parenthesis or keyword; distinct = distinct (stream, redaction, text).")
 	r := hx.NewRand(o.Seed)
-	runQuoteStream(o, res, r.Fork("quote"), o.Count(1200, 40000))
+	runCqlStreams(o, res, r.Fork("cql"))
+	runQuoteStream(o, res, r.Fork("quote"), o.Count(600, 40000))
 	res.Write(o)
 }
